@@ -377,9 +377,40 @@ def compile_scn(rng, inp, model, opts) -> dict:
     }
 
 
+def gen_deep_routing(rng: random.Random, tier: str) -> dict:
+    """Routing-heavy class: many two-qudit gates on random pairs, sparse
+    coupling graph, so that the mapping passes insert many swaps."""
+    from dst.workload import compile_inputs as CI
+    big = tier == 'thorough'
+    n = rng.choice([4, 5, 5, 6]) if big else rng.choice([4, 5, 5])
+    k = rng.randint(40, 70) if big else rng.randint(40, 60)
+    gates = []
+    for _ in range(k):
+        a, b = rng.sample(range(n), 2)
+        gates.append({'g': rng.choice(['cx', 'cx', 'cz']), 'q': [a, b]})
+        if rng.random() < 0.5:
+            gates.append({'g': 'u3', 'q': [a],
+                          'p': [round(rng.uniform(0, 6), 6)
+                                for _ in range(3)]})
+    inp = {'kind': 'circuit', 'n': n, 'gates': gates}
+    if rng.random() < 0.3:
+        inp['measure'] = sorted(rng.sample(range(n), rng.randint(1, n)))
+    model = {'n': n + (1 if rng.random() < 0.2 else 0), 'd': 2,
+             'graph': rng.choice(['line', 'line', 'star']),
+             'gateset': 'default'}
+    opts = {'optimization_level': 1, 'max_synthesis_size': 3,
+            'seed': rng.randrange(10 ** 6),
+            'num_workers': rng.randint(1, 4)}
+    scn = compile_scn(rng, inp, model, opts)
+    scn['policy']['preempt_gap'] = 0
+    return scn
+
+
 def gen_c01(rng: random.Random, tier: str) -> dict:
     from dst.workload import compile_inputs as CI
     big = tier == 'thorough'
+    if rng.random() < 0.12:
+        return gen_deep_routing(rng, tier)
     n = rng.choice([1, 2, 2, 3, 3, 4] + ([5, 6] if big else []))
     depth = rng.randint(2, 10 if n <= 3 else 7)
     inp = CI.gen_circuit(rng, n, depth)
